@@ -98,3 +98,101 @@ func TestKnownHostsExamples(t *testing.T) {
 		}
 	}
 }
+
+// The look-behind reading used by ScanOptions/SplitOptions and the literal
+// pair-skipping loop of sshd agree on every string over the characters that
+// matter (exhaustive up to length 8).
+func TestScannersAgree(t *testing.T) {
+	abc := []byte{'\\', '"', ',', ' ', 'a'}
+	var rec func(b []byte, n int)
+	count := 0
+	rec = func(b []byte, n int) {
+		s := string(b)
+		count++
+		f, _, ok := ScanOptions(s)
+		j := ScanOptionsPairs(s)
+		if ok != (j >= 0) || (ok && len(f) != j) {
+			t.Fatalf("%q: look-behind (%q,%v) vs pairs %d", s, f, ok, j)
+		}
+		if n == 0 {
+			return
+		}
+		for _, c := range abc {
+			rec(append(b, c), n-1)
+		}
+	}
+	rec(nil, 8)
+	if count < 400000 {
+		t.Fatalf("only %d strings", count)
+	}
+}
+
+// Quoted-option escapes, expectations written out by hand from the two loops.
+func TestQuotedOptionEscapes(t *testing.T) {
+	const key = " ssh-ed25519 AAAA c"
+	acc := []struct {
+		field string
+		opts  []string
+	}{
+		{`command="a\" b"`, []string{`command="a\" b"`}},                // 1 backslash: escaped
+		{`command="a\\" b"`, []string{`command="a\\" b"`}},              // 2: the quote is still preceded by a backslash
+		{`command="a\\\" b"`, []string{`command="a\\\" b"`}},            // 3
+		{`command="a\\\\" b"`, []string{`command="a\\\\" b"`}},          // 4
+		{`command="a\,b",no-pty`, []string{`command="a\,b"`, "no-pty"}}, // backslash before comma: nothing special, comma is quoted
+		{`command="a\ b"`, []string{`command="a\ b"`}},                  // backslash before blank, quoted
+		{`command="a\nb\\c"`, []string{`command="a\nb\\c"`}},            // backslashes before other characters
+		{`foo\,bar`, []string{`foo\`, `bar`}},                           // unquoted: the comma separates
+		{`a"b c"d`, []string{`a"b c"d`}},                                // quotation inside unquoted text
+		{`a"b,c"d,e`, []string{`a"b,c"d`, "e"}},                         //
+		{`command="\"a"`, []string{`command="\"a"`}},                    // escaped quote first
+		{`command="a\""`, []string{`command="a\""`}},                    // escaped quote last
+		{`command="\""`, []string{`command="\""`}},                      //
+		{`command="",no-pty`, []string{`command=""`, "no-pty"}},         // empty value
+		{`a\"b`, []string{`a\"b`}},                                      // escaped quote outside a quotation opens nothing
+		{`a\"b,c`, []string{`a\"b`, "c"}},                               //
+		{`from="x",command="\\\"",pty`, []string{`from="x"`, `command="\\\""`, "pty"}},
+	}
+	for _, c := range acc {
+		for _, sep := range []string{" ", "\t", "  ", " \t"} {
+			l, kind := ParseAuthLine(c.field + sep + key[1:])
+			if kind != Key || !reflect.DeepEqual(l.Options, c.opts) || l.Type != "ssh-ed25519" || l.B64 != "AAAA" || l.Comment != "c" {
+				t.Errorf("%q: kind %s got %+v want %q", c.field, kind, l, c.opts)
+			}
+		}
+	}
+	rej := []string{
+		`command="a" b"`,            // 0 backslashes: the quote closes, ` b"` is not a key type
+		`command="dir C:\"`,         // value cannot end in a backslash: unterminated
+		`command="dir C:\\"`,        // nor in two
+		`command="dir C:\\\"`,       //
+		`command="dir C:\\\\"`,      //
+		`command="dir C:\\",no-pty`, // the rest of the line is swallowed by the open quotation
+		`command="abc`,              // unterminated
+		`command="abc\`,             // … with trailing backslashes
+		`command="abc\\`,            //
+		`foo\ bar`,                  // unquoted blank ends the options whatever precedes it
+		`\"x y\"`,                   // escaped quotes do not quote the blank
+		`"`,                         //
+	}
+	for _, f := range rej {
+		if l, kind := ParseAuthLine(f + key); kind != Invalid {
+			t.Errorf("%q: kind %s (%+v), want invalid", f, kind, l)
+		}
+	}
+	// opt_dequote on the values above
+	dq := []struct{ in, val, rest string }{
+		{`"a\" b"`, `a" b`, ""}, {`"a\\" b",x`, `a\" b`, ",x"}, {`"a\\\" b"`, `a\\" b`, ""}, {`"a\,b"`, `a\,b`, ""},
+		{`"\""`, `"`, ""}, {`""`, "", ""}, {`"a\nb\\c"`, `a\nb\\c`, ""}, {`"1"y`, "1", "y"},
+	}
+	for _, c := range dq {
+		v, rest, ok := Dequote(c.in)
+		if !ok || v != c.val || rest != c.rest {
+			t.Errorf("Dequote(%q) = %q,%q,%v want %q,%q", c.in, v, rest, ok, c.val, c.rest)
+		}
+	}
+	for _, bad := range []string{`a`, ``, `"abc`, `"dir C:\"`, `"dir C:\\"`, `"abc\`} {
+		if _, _, ok := Dequote(bad); ok {
+			t.Errorf("Dequote(%q) accepted", bad)
+		}
+	}
+}
